@@ -9,31 +9,31 @@ TEXT = {
  "C01": ("exploration", "rapid-generated option pairs (built around an intended agreement) x fault masks x payloads; every negotiated output compared on both sides and on the wire whenever both succeed",
          "both endpoints are this library; agreement, not RFC conformance (C10); schedules = delivery order on the virtual network, goroutine interleavings not controlled",
          "property-based testing (rapid) over configuration pairs and fault masks, virtual clock (testing/synctest), oracle = field-by-field agreement + wire inspection"),
- "C02": ("fault_enumeration", "exhaustive drop masks over the first 4 (thorough 6) datagrams of each direction, all-kind masks over the first 2 (thorough 3), every single loss under 5 asymmetric (client, server) flight intervals x backoff on/off, for 14 handshake variants; sampled masks (N<=12, random intervals, dual-stack variants) beyond; completion + virtual-time bound + data exchange",
+ "C02": ("fault_enumeration", "exhaustive drop masks over the first 4 (thorough 6) datagrams of each direction, all-kind masks over the first 2 (thorough 3), every single loss under 5 asymmetric (client, server) flight intervals x backoff on/off, for 14 handshake variants; sampled masks (N<=12, random intervals, dual-stack variants) beyond; the empty fault set over generated compatible option pairs (several server certificates selected by name, client-certificate callbacks, one-sided stores, option order, resumption); completion + virtual-time bound + data exchange",
          "faults never modify bytes; liveness decided up to a 30 min virtual deadline; failures are minimised to a content-targeted fault plan for root-cause signatures",
          "exhaustive fault-mask enumeration + rapid sampling on a virtual network and clock; oracle = both succeed within the retransmission-schedule bound"),
- "C03": ("exploration", "policy (6 client-auth modes, roots, server name, custom verifiers, PSK) x rogue deviation (no/foreign/expired/wrong-name certificate, signature by another key or over other bytes, missing CertificateVerify, wrong PSK, dropped messages) enumerated and sampled for both versions; the rogue is this library steered through the flight rewrite hook",
+ "C03": ("exploration", "policy (6 client-auth modes, roots, server name, custom verifiers, PSK) x rogue deviation (no/foreign/expired/wrong-name certificate, signature by another key or over other bytes, missing CertificateVerify, wrong PSK, dropped messages, a handshake abandoned after the ClientKeyExchange and then resumed, an ACK instead of the final 1.3 flight, IP-literal and underscore server names) enumerated and sampled for both versions; the rogue is this library steered through the flight rewrite hook",
          "deviations are a finite catalogue; each cell is paired with an honest control that must succeed, so 'rejected' is not vacuous",
          "enumerated policy x deviation grid + rapid sampling through a build-tagged flight hook; oracle = no side whose policy was not met reports success (control cell must succeed)"),
- "C04": ("exploration", "persistent man in the middle rewriting one handshake message on the wire (by message kind and occurrence: suite list edits, extension byte/drop/add, randoms, session id, key share, cookie, certificate bytes, random byte) for 1.2/1.3, full/PSK/resumed/client-auth, EMS on/off; forged Finished grid (verify_data bit flips, stale, from other transcript)",
+ "C04": ("exploration", "persistent man in the middle rewriting one handshake message on the wire (by message kind and occurrence: suite list edits, extension byte/drop/add, randoms, session id, key share, cookie, certificate bytes, random byte) for 1.2/1.3, full/PSK/resumed/client-auth, EMS on/off/required by the server, with and without connection IDs offered; forged Finished grid (verify_data bit flips, stale, from other transcript)",
          "field-level rewriting needs the target message unfragmented in one epoch-0 record; protected handshake records get bit-level corruption under C05",
          "enumerated MITM rewrite grid + rapid sampling on a virtual network; oracle = no endpoint that sent or received an altered message reports success; unaltered control must succeed"),
- "C07": ("exploration", "sessions over all suites/versions with marker payloads and marker-bearing handshake fields; every emitted datagram scanned for clear-text markers, Finished verify_data, 1.3 post-ServerHello messages; unprotected application-data injection; exporter outputs compared against values computable from public data",
+ "C07": ("exploration", "sessions over all suites/versions with marker payloads and marker-bearing handshake fields; every emitted datagram scanned for clear-text markers, Finished verify_data, 1.3 post-ServerHello messages and key updates (records must not open under keys derived from public constants); unprotected application-data injection; exporter also judged on an imported connection; exporter outputs compared against values computable from public data",
          "markers detect verbatim leaks only; 'computable from public data' checked against a catalogue of public-input derivations, not all functions",
          "property-based testing (rapid) with wire scanning via the independent decoder; oracle = marker absence, epoch>0 for application data, injected clear-text never delivered, exporter not derivable from hellos"),
- "C08": ("exploration", "unauthenticated injection bursts (structured record/handshake/fragment generators, mutated genuine datagrams, junk) at every handshake trigger point for 1.2/1.3 client and server; correctly protected but malformed records from the authenticated peer built with the reference record layer (all suites incl. CBC padding grid, 1.3 post-handshake types); floods with heap measurement",
+ "C08": ("exploration", "unauthenticated injection bursts (structured record/handshake/fragment generators, mutated genuine datagrams, junk) at every handshake trigger point for 1.2/1.3 client and server; correctly protected but malformed records from the authenticated peer built with the reference record layer (all suites incl. CBC padding grid, 1.3 post-handshake types); floods (future epochs, fragments, whole messages, plaintext ACKs) with heap measurement, after which an established connection must still deliver data",
          "absence of crashes is never established; memory judged by heap growth after GC; 'keeps serving' asserted only when every injected datagram was unparseable or unauthenticatable by construction",
          "structured fuzzing through rapid generators + enumerated grids against live endpoints in a synctest bubble; oracle = no panic, no hang (wall watchdog reproduced on replay), no datagram storm, bounded heap, handshake and data still succeed"),
- "C10": ("exploration", "reference implementations written from the RFCs (PRF, EMS, key block, verify_data, exporters, GCM/CCM/ChaCha/CBC records with RFC 9146 CID layouts, HKDF-Expand-Label, traffic keys, sequence-number masking, 1.3 AEAD) compared with the library on generated inputs, and a passive decoder that must decrypt, verify both Finished and reproduce the exporter of live sessions from the key log / secret hook alone",
+ "C10": ("exploration", "reference implementations written from the RFCs (PRF, EMS, key block, verify_data, exporters, GCM/CCM/ChaCha/CBC records with RFC 9146 CID layouts, HKDF-Expand-Label, traffic keys, sequence-number masking, 1.3 AEAD) compared with the library on generated inputs, and a passive decoder that must decrypt, verify both Finished and reproduce the exporter of live sessions from the key log / secret hook alone (each side's key log separately, resumed sessions, later 1.3 generations derived by the decoder itself); records re-protected by a translator with the header layouts this library never writes (8-bit sequence number, no length) must be accepted",
          "reference and library share crypto/aes, sha256, x/crypto chacha20poly1305 primitives; CCM and HKDF are re-implemented; RFC test vectors pin the references",
          "differential property-based testing (rapid) against independent RFC reference implementations + live-session passive decoding; oracle = byte equality"),
- "C11": ("exploration", "generated client/server policies (version ranges, suite lists, key types, curves, signature schemes, SRTP, ALPN, EMS modes, PSK hints, renegotiation-info) run live; negotiated outputs compared with a policy model; failure must come with an alert and no silent downgrade",
+ "C11": ("exploration", "generated client/server policies (version ranges, suite lists, key types, curves, signature schemes, SRTP, ALPN, EMS modes, PSK hints, certificates of several key types selected by name, option order) run live; negotiated outputs compared with a policy model; failure must come with an alert and no silent downgrade",
          "policy model written from documented option semantics; where documentation is silent the model abstains (class 'unspecified')",
          "property-based testing (rapid) over policy pairs against a negotiation model on a virtual network; oracle = every negotiated parameter inside both policies and highest common version"),
- "C05": ("exploration", "every suite x CID layout x direction: held genuine records, generated forgeries (all header/edge bit flips, field neighbour values, truncations, extensions, cross-session splices, recombinations) must vanish without effect and the genuine record must still be delivered once",
+ "C05": ("exploration", "every suite x CID layout x direction: held genuine records, generated forgeries (all header/edge bit flips, field neighbour values, truncations, extensions, cross-session splices incl. a second resumption of the same stored session under deterministic hello randoms, recombinations, records protected under keys derived from public values) must vanish without effect and the genuine record must still be delivered once",
          "forger holds no keys; soundness of the AEAD/HMAC primitives assumed",
          "property-based testing (rapid) + exhaustive mutation grid per suite; oracle = vanish without effect (no read, no emission, no error, connection open) then genuine record accepted"),
- "C06": ("exploration", "arrival sequences with repetitions over captured records, all short sequences enumerated for windows 1..3, sampled long ones aimed at the window edge for windows up to 1000; for DTLS 1.3 up to 8 key updates between rounds with late duplicates of datagrams read under earlier epochs",
+ "C06": ("exploration", "arrival sequences with repetitions over captured records, all short sequences enumerated for windows 1..3, sampled long ones aimed at the window edge for windows up to 1000; for DTLS 1.3 up to 8 key updates between rounds with late duplicates of datagrams read under earlier epochs; receiver optionally exported/imported with its window option; application data overtaking the final handshake flight",
          "records of a round carry consecutive sequence numbers (written at quiescence); model used one-sidedly as the statement is worded",
          "exhaustive enumeration of short arrival sequences + rapid sampling; oracle = sliding-window reference model"),
  "C09": ("exploration", "sessions with concurrent writers, forced handshake retransmissions, alerts, 1.3 key updates, export/import seams and counters rewritten to 2^48-j; sequence numbers read off the wire (1.3 via independent decoder) must strictly increase per epoch",
@@ -48,22 +48,22 @@ TEXT = {
  "C17": ("exploration", "endpoint observed against a scripted peer (silence from every flight boundary, new flight after b rungs, stale replays, junk) for both roles, 7 variants, intervals 1 ms..60 s, backoff on/off; emission instants compared exactly with the schedule on virtual time",
          "timer law checked at the granularity of emissions on the injected PacketConn; DTLS 1.3 under stale replays judged by the weak law only",
          "property-based testing (rapid) + enumerated silence grid on a virtual clock; oracle = exact retransmission-schedule model"),
- "C14": ("exploration", "histories of <=12 actions over recording client/server session stores (connects with fault masks/EMS/suites/CID, overlapping connects, store mutations, provoked fatal alerts); invariant after every step",
+ "C14": ("exploration", "histories of <=12 actions over recording client/server session stores (connects with fault masks/EMS/suites/CID, overlapping connects, store mutations, provoked fatal alerts, export/import of a side before the alert, an alert raced with a stalled resumption); stores keep the slices they are given; invariant after every step",
          "DTLS 1.2 only (1.3 tickets are never consumed in this tree); store model = harness stores; Finished-forgery in the abbreviated handshake is covered under C04",
          "stateful property-based testing (rapid action sequences) against a session-store model on a virtual network/clock"),
- "C15": ("exploration", "sessions for every pair of connection-ID lengths (absent, send-only, zero, 1..20) x version x return-routability on/off (extension stripped through the flight hook) x observed side; the honest peer's datagrams are captured and delivered with generated source addresses, order and delay (authentic newest / stale / replayed / ID-damaged records from new addresses, timely / late / misdirected / duplicated / held path responses, racing candidates, writes while validation is pending); rrc.Manager additionally driven by generated operation histories against a cumulative model; listener routing over real loopback sockets (rebinding, another client's socket, junk)",
+ "C15": ("exploration", "sessions for every pair of connection-ID lengths (absent, send-only, zero, 1..20) x version x return-routability on/off (extension stripped through the flight hook) x observed side; the honest peer's datagrams are captured and delivered with generated source addresses, order and delay (authentic newest / stale / replayed / ID-damaged records from new addresses, timely / late / misdirected / duplicated / held path responses, racing candidates, writes while validation is pending); rrc.Manager additionally driven by generated operation histories against a cumulative model; listener routing over real loopback sockets (rebinding, another client's socket, junk, oversized datagrams, a plaintext record in front of the ID record, fragmenting server MTU)",
          "the peer is an honest pion endpoint and the harness holds no keys (no forged cookies); listener sub-check uses real time with repeated writes, a payload nobody reads within 3 s of repeats counts as not routed and must reproduce on replay",
          "property-based testing (rapid) + enumerated scenario grid on a virtual network/clock with a passive decoder; model-based testing of the path manager; oracle = address changes only after a valid timely response from the challenged address, challenge only after an authentic newest ID-bearing record, bytes to unvalidated address <= 3x received, peer ID on every protected record, routing by ID"),
  "C16": ("exploration", "Close placed at every datagram-count event / virtual instant / after establishment for 7 variants, 1..4 concurrent closers, 1..3 calls each, pending Handshake/Read/Write/UpdateKeys; close_notify counted with the independent decoder; goroutine-leak scan; concurrent API op lists also run under the race detector; deadlines at exact virtual instants",
          "goroutine interleavings are those the scheduler, repetition and the race detector reach; pending calls during a handshake that needs timers are not generated (a goroutine parked on the handshake mutex blocks synctest's virtual clock)",
          "property-based testing (rapid) + enumerated placement grid in a synctest bubble, race-detector build for the concurrent-API scenarios; oracle = lifecycle invariants over recorded calls and tapped alerts"),
- "C18": ("exploration", "~70 codecs: seed encodings harvested from genuine 1.2/1.3 traffic via the independent decoder, mutated (every truncation and single-byte change swept, extensions, random); rapid.Make value round trips; datagram partition by the three unpackers",
+ "C18": ("exploration", "~70 codecs: seed encodings harvested from genuine 1.2/1.3 traffic via the independent decoder, mutated (every truncation and single-byte change swept, extensions, random, structure-aware cuts that repair the spanning length prefix); inputs beyond 65536 bytes with maximal length fields; rapid.Make value round trips; decode isolation (a later decode must not change an earlier value); datagram partition by the three unpackers",
          "equality structural with nil/empty slices identified; values restricted to the wire-representable domain by per-codec predicates; decoders that drop unknown enum members are judged on canonical re-encoding only",
          "property-based testing (rapid, constructive value generators) + exhaustive mutation sweep + native coverage-guided fuzzing of the decoders and datagram splitters in the thorough tier; oracles = round trip, canonical fixed point, declared-length rules, exact partition"),
- "C19": ("exploration", "DTLS 1.2 sessions over 13 suites x CID/SRTP/ALPN/EMS/PSK, traffic prefix up to 50 records each way, export on client/server/both, optional second export; corruption of the serialised bytes (bit, every truncation, field-aware edits, random)",
+ "C19": ("exploration", "DTLS 1.2 sessions over 13 suites x CID/SRTP/ALPN/EMS/PSK, traffic prefix up to 50 records each way, export on client/server/both, optional second export, three orders of the API calls (serialise first, close first, another state serialised meanwhile), resumption from a new address; corruption of the serialised bytes (bit, every truncation, field-aware edits, random)",
          "export points are quiescent points; corruption judged 'key material intact' by re-decoding through a gob mirror",
          "property-based testing (rapid) + enumerated corruption grid; oracle = parameters/exporter unchanged, data both ways exactly once, sequence numbers monotone across the seam; corrupted state rejected or unable to authenticate, never a panic"),
- "C20": ("exploration", "1.3 sessions with generated operation lists for both sides (UpdateKeys with/without request, write bursts, idle, parallel goroutines) under fault scripts on post-handshake datagrams and total ACK starvation; judged on the decrypted tap",
+ "C20": ("exploration", "1.3 sessions with generated operation lists for both sides (UpdateKeys with/without request, write bursts, idle, parallel goroutines) under fault scripts on post-handshake datagrams, total ACK starvation, forged unprotected ACK records and a lost NewSessionTicket; epochs that carried more than 2^16 records; judged on the decrypted tap",
          "traffic secrets observed through the verif hook, keys derived by the reference implementation; epoch overflow not reached",
          "property-based testing (rapid) of operation schedules with fault injection; oracle = ACK-before-success, exactly-once payload multiset, epoch monotonicity, traffic-update successor law via independent decoder"),
 }
